@@ -368,7 +368,29 @@ def floor_C16(ctx, agg):
     return miss
 
 
+def run_C15(ctx):
+    ctx.run("asm", "eng_thr.c", mode="prefill")
+    ctx.run("so", "eng_thr.c", mode="ro", nshards=1)
+    ctx.run("asm", "eng_thr.c", mode="cold")
+    ctx.run("c-tsan", "eng_thr.c", mode="threads", nshards=1, env_extra={"TSAN_OPTIONS": "halt_on_error=0:exitcode=0:report_signal_unsafe=0"})
+    if ctx.thorough:
+        ctx.run("c-asan", "eng_thr.c", mode="prefill", scale=1.0)
+        ctx.run("hist8k", "eng_thr.c", mode="prefill")
+
+
+def cov_C15(ctx, agg):
+    st = agg.stats
+    return {"rule": "11 API scenarios (one-shot and streaming compression, decompression, table creation, dictionaries, erasure code, checksums/zero detect, RAID, headers, reuse histories for deflate and inflate) x up to 160 parameter variants; (e) each variant run 10 times: context / level_buf / output / output structs pre-filled with 00, FF, A5, random bytes, 32-bit words of 9, at two different addresses; reuse histories {use,reset,reuse keeping user fields | use,reset,re-set fields | use,init,reuse} compared with a fresh context; (a) 16 threads with independent contexts and shared read-only inputs after every writable page of libisal.so has been made read-only; (b) first calls raced from 2/4/16 threads in fresh processes; (c) the threaded workload on the all-C build under ThreadSanitizer; distinct = distinct (scenario, variant, repetition)",
+            "explanation": "digest of everything observable (output bytes, return codes, totals, final states, output structs) must be identical across prefills, addresses, reuse histories, threads and serial execution; a write to library-owned data after warm-up faults",
+            "threads": int(st.get("threads", 0)), "library_pages_made_read_only": int(st.get("library_pages_made_read_only", 0)), "cold_start_processes": int(st.get("cold_start_processes", 0)),
+            "scenario_runs": dict(sorted(agg.cnts.get("scenario_runs", {}).items())), "tsan_reports": int(st.get("tsan_reports", 0))}
+
+
 PROPS = {
+    "C15": dict(run=run_C15, level="exploration", coverage=cov_C15,
+                floors=lambda ctx, agg: ([] if agg.stats.get("library_pages_made_read_only", 0) > 0 else ["no library pages protected"]) + ([] if agg.stats.get("threads", 0) >= 16 else ["threads"]) + ([] if agg.stats.get("cold_start_processes", 0) >= 11 else ["cold starts %d" % agg.stats.get("cold_start_processes", 0)]),
+                assumptions=["'for all interleavings' is replaced by the observation that nothing in library-owned memory is written after the one-time selection, plus stress; the benign idempotent slot store of the resolvers is excluded by warming up first",
+                             "isal_update_histogram accumulates into a caller-zeroed histogram (documented usage)"]),
     "C16": dict(run=run_C16, level="exploration", coverage=cov_C16, floors=floor_C16,
                 assumptions=["extensions the resolvers do not test but kernels use are tied to the generation that always ships them: SSSE3 with SSE4.1, POPCNT with SSE4.2, BMI1/BMI2/LZCNT/MOVBE with AVX2",
                              "tzcnt is treated as baseline (executes as bsf with the same result for non-zero inputs)", "any EVEX-encoded instruction requires the full AVX-512 F/DQ/CD/BW/VL set and OS-enabled ZMM state",
